@@ -121,7 +121,9 @@ def run(repo: Repo, L: Ledger, tier: str):
                             continue  # Unloc in unpainted scaffold: documented error
                         got = r["env"].get(f"{sc_p}.tag")
                         tcont = target_mode and "Target" not in stags
-                        allowed = set(subset) | ({"Contaminant"} if tcont else set())
+                        # the piece's own tag decides ("wherever in a Pretext scaffold they sit and whatever other scaffolds are
+                        # called"); Target mode only decides for pieces that carry no routing tag of their own
+                        allowed = set(subset) if subset else ({"Contaminant"} if tcont else set())
                         if not allowed:
                             ok = got is None
                         elif len(allowed) == 1:
